@@ -159,6 +159,20 @@ CLAIMS = {
               "nested classes only as separate top-level-like classes."),
         technique="Lean 4 proof (case analysis of the decision list, list filter lemmas) + differential check on generated classes",
         ref="DESIGN.md §3 C16"),
+    "C17": dict(
+        text=("Kernel-checked theorems about a model of the three Rust scans over arbitrary trees of frames (mod / fn with attributes, "
+              "loops, closures, blocks, lets, enclosing calls, macro arguments) and call sites, for every option setting: test code is "
+              "recognised exactly under any nesting and with comments between attribute and item (test_context_exact, on attributes proved "
+              "plain by alphabet_plain), unwrap / clone / blocking verdicts equal the property's reading (unwrap_exact, clone_exact, "
+              "blocking_exact with wrapper_exact, *_reported_iff, classify_priority), every visible call is judged exactly once "
+              "(exactly_once, scan_eq_sites), detect_* switches remove exactly their category (clone_switch, blocking_switch), "
+              "allow_in_tests=false makes attributes irrelevant, blocking API tables regenerated from /repo classify the documented calls. "
+              "scan_meets_spec_partial: full agreement with the specification on files without calls inside macro arguments; those are the "
+              "recorded finding F17c (F17c_witness). Four genuine defects repaired (config sections ignored, substring test detection, "
+              "comments hiding attributes, method-style wrappers). The model is tied to /repo by running the real CLI of all three linters "
+              "on generated Rust projects with options in .thailint.yaml; tree-sitter's Rust grammar is trusted, hence partial."),
+        technique="Lean 4 proof (mutual structural recursion over syntax trees, case analysis over options) + T1 tables + differential check",
+        ref="DESIGN.md §3 C17"),
     "C18": dict(
         text=("Kernel-checked theorems about the file-placement decision procedure for every rule set, every path and every regex "
               "semantics (matching is a parameter): the governing directory rule really contains the file component-wise "
